@@ -516,6 +516,9 @@ func c04(x *mon.Ctx) {
 			if r.Intn(2) == 0 {
 				l.Status = "UpToDate"
 			}
+			if r.Intn(4) == 0 { // the date of a level is informational: any spelling, or none
+				l.TcbDate = []string{"2024-03-13", "<omit>", " ", "not a date", "2024-03-13T00:00:00+02:00"}[r.Intn(5)]
+			}
 			w.Tcb.Levels = append(w.Tcb.Levels, l)
 		}
 		mods2[r.Intn(len(mods2))].apply(w)
